@@ -29,6 +29,8 @@ def _mk(kind, m):
         return Env.DiscreteWorld(m, 2, 1, 2), (2, 1, 2)
     if kind == 'flat_mid':
         return Env.DiscreteWorld(m, 2, 0, 2), (2, 0, 2)
+    if kind == 'nox':                        # a grid without an x axis
+        return Env.DiscreteWorld(m, 0, 2, 2), (0, 2, 2)
     return Env.DiscreteWorld(m, 0, 0, 0), (0, 0, 0)
 
 
@@ -38,6 +40,10 @@ def _cells_of(shape):
 
 
 _ELEMS = [0, "cell", 2.5, (1, 2), None]
+
+
+def _growth_rule():
+    return 0.0
 
 
 def sources(src: int, e0: int, e1: int, e2: int, e3: int, v0: int, v1: int, v2: int, v3: int, mut: int) -> bool:
@@ -114,6 +120,8 @@ def sources(src: int, e0: int, e1: int, e2: int, e3: int, v0: int, v1: int, v2: 
             ck = e0 % 6                               # (incl. the falsy constants None and False: empty slots to be filled later)
             const = vals[0] if ck == 0 else [vals[i] for i in range(n)] if ck == 1 else tuple(vals[i] for i in range(n)) if ck == 2 \
                 else (1, 2) if ck == 3 else None if ck == 4 else False
+            if hx.P.get('callable_constant'):
+                const = _growth_rule               # a constant that happens to be callable (a per-cell rule, a class): stored as it is
             env.add_cell_component("c", Env.ConstantGenerator(const))
             want = [const] * n
         elif src == 1:                                  # a list whose element kinds the solver chooses (mixed types!)
@@ -338,7 +346,8 @@ def obligations(tier):
         X("sources", sources, parts=[{"world": w, "src": sk} for w in worlds for sk in (0, 2, 3, 4)] +
           [{"world": w, "src": 1, "mut": mu} for w in worlds for mu in ((0, 2) if tier == "quick" else (0, 1, 2, 3))] +
           [{"world": "line", "src": 1, "mut": 1, "alias": True}] + [{"world": w, "src": 0, "sized_callable": True} for w in ("line", "grid")] +
-          [{"world": "grid", "src": 2, "mut": 1, "float_array": True}],
+          [{"world": "grid", "src": 2, "mut": 1, "float_array": True}, {"world": "line", "src": 3, "callable_constant": True}] +
+          [{"world": "nox", "src": sk} for sk in (0, 2)] + [{"world": "nox", "src": 1, "mut": 0}],
           labels=("callable", "list", "ndarray", "constant", "nested"), labels_for=lambda p: (("callable", "list", "ndarray", "constant", "nested")[p["src"]],),
           timeout=1200, encoded=enc),
         X("none_among_numbers.prop", sources, parts=[{"world": "line", "src": 1, "mut": 0, "mode": "prop"}], labels=("none_among_numbers",),
